@@ -48,6 +48,9 @@ structure GState where
   fileNames : List S        -- per-file namer (sub-method names)
   seen : List S             -- MethodContext.SeenNamed of the method being built
   useCtor : Bool            -- MethodContext.UseConstructor of the method being built
+  /-- (callee, caller): which methods were built with a call of a declared / generated method (`generator.callers`);
+      they are rebuilt when the callee's signature changes -/
+  callers : List (Nat × Nat) := []
   deriving Inhabited
 
 abbrev M := StateT GState (Except Diag)
@@ -223,21 +226,40 @@ def hasSignature (c : Converter) (ms : List GenMethod) (s t : Ty) : Bool :=
   (extendIndex c).any (fun (_, s', t', _) => s' == s && t' == t) ||
   (lookupIndex ms).any (fun (_, s', t', _) => s' == s && t' == t)
 
+/-- `generator.markCallersDirty` -/
+def markCallersDirty (callee : Nat) : M Unit := do
+  let st ← get
+  for (ce, cr) in st.callers do
+    if ce == callee then modifyMethod cr (fun m => { m with dirty := true })
+
+/-- `generator.addContext`: the context argument is added to a generated method and to the generated methods already
+built with a call of it (an explicit caller that lacks the context is only marked for a rebuild, which reports it).
+The fuel bounds the walk over the caller graph (every step adds the context to one more method). -/
+def addContext (need : Ty) : Nat → Nat → M Bool
+  | 0, _ => pure true
+  | fuel+1, i => do
+    let m ← getMethod i
+    if tyMem need m.contexts then return true
+    if m.explicit then return false
+    modifyMethod i (fun m => { m with contexts := m.contexts ++ [need],
+                                      args := m.args ++ [{ name := [], use := .context, ty := need }], dirty := true })
+    let st ← get
+    for (ce, cr) in st.callers do
+      if ce == i then
+        if !(← addContext need fuel cr) then modifyMethod cr (fun m => { m with dirty := true })
+    return true
+
 /-- `generator.requireContext` -/
 def requireContext (cx : Ctx) (need : Ty) : M Bool := do
   if tyMem need cx.ctxArgs then return true
   let self ← getMethod cx.self
+  let n := (← get).methods.length + 1
   let rec walk (ids : List Nat) : M Bool :=
     match ids with
     | [] => pure true
     | i :: rest => do
-      let m ← getMethod i
-      if tyMem need m.contexts then walk rest
-      else if m.explicit then pure false
-      else do
-        modifyMethod i (fun m => { m with contexts := m.contexts ++ [need],
-                                          args := m.args ++ [{ name := [], use := .context, ty := need }], dirty := true })
-        walk rest
+      if !(← addContext need n i) then pure false
+      else walk rest
   walk (cx.self :: self.originPath)
 
 def wrapOf (cx : Ctx) (path : List PathElem) : Wrap :=
@@ -256,7 +278,9 @@ def returnError (cx : Ctx) : M Bool := do
       let m ← getMethod i
       if m.explicit && !m.returnError then pure false
       else do
-        if !m.returnError then modifyMethod i (fun m => { m with returnError := true, dirty := true })
+        if !m.returnError then
+          modifyMethod i (fun m => { m with returnError := true, dirty := true })
+          markCallersDirty i
         walk rest
   walk (cx.self :: self.originPath)
 
@@ -278,6 +302,10 @@ def callMethod (c : Converter) (cx : Ctx) (callee : Callee) (d : FnDef) (source 
     | .multiSource => fail (.unsupported "multi source")
     | .target => fail (.unsupported "target argument in callee")
   if !assignable c d.target target && !d.typeParams then fail .methodTargetMismatch
+  -- remember who calls a declared / generated method
+  match callee with
+  | .method i => modify (fun st => if st.callers.any (fun p => p == (i, cx.self)) then st else { st with callers := st.callers ++ [(i, cx.self)] })
+  | _ => pure ()
   if d.returnError then
     if !(← returnError cx) then fail .errorNotReturned
     pure (.call callee args true (wrapOf cx path))
